@@ -25,6 +25,80 @@ type pathComp struct {
 	Key   string `json:"key,omitempty"`
 	Idx   int    `json:"idx,omitempty"`
 	IsIdx bool   `json:"is_idx,omitempty"`
+	// Query (JSON, with IsIdx/Idx = the element it selects): the component is written as a gjson first-match query #(k=="v")
+	Query string `json:"query,omitempty"`
+	// Each: every element of the array here (gjson `#`, YAML `[*]`); only in paths of match.Any
+	Each bool `json:"each,omitempty"`
+}
+
+func hasEach(comps []pathComp) bool {
+	for _, c := range comps {
+		if c.Each {
+			return true
+		}
+	}
+	return false
+}
+
+// expandEach: the concrete paths an `each` path stands for in this tree (the elements in which the rest of the path exists).
+func expandEach(tree JNode, comps []pathComp) [][]pathComp {
+	for i, c := range comps {
+		if !c.Each {
+			continue
+		}
+		arr, ok := tree.at(comps[:i])
+		if !ok || arr.K != "arr" {
+			return nil
+		}
+		var out [][]pathComp
+		for k := range arr.Kids {
+			p := append(append(append([]pathComp{}, comps[:i]...), pathComp{Idx: k, IsIdx: true}), comps[i+1:]...)
+			if _, ok := tree.at(p); ok {
+				out = append(out, p)
+			}
+		}
+		return out
+	}
+	return [][]pathComp{comps}
+}
+
+// genTable: an array of 1-4 records (objects with the members id, name, tags, meta), the shape paths with `#` / `[*]` are for.
+// With holes, some records lack "name".
+func genTable(t *rapid.T, holes bool) JNode {
+	n := rapid.IntRange(1, 4).Draw(t, "nrows")
+	arr := JNode{K: "arr"}
+	for i := 0; i < n; i++ {
+		row := JNode{K: "obj"}
+		add := func(k string, v JNode) { row.Keys = append(row.Keys, k); row.Kids = append(row.Kids, v) }
+		add("id", JNode{K: "num", Num: strconv.Itoa(100 + i)})
+		if !(holes && i > 0 && rapid.Bool().Draw(t, "hole")) {
+			add("name", JNode{K: "str", S: fmt.Sprintf("user%d", i)})
+		}
+		tags := JNode{K: "arr"}
+		for k := rapid.IntRange(0, 2).Draw(t, "ntags"); k > 0; k-- {
+			tags.Kids = append(tags.Kids, JNode{K: "str", S: rapid.SampledFrom([]string{"a", "b", "admin"}).Draw(t, "tag")})
+		}
+		add("tags", tags)
+		arr.Kids = append(arr.Kids, row)
+	}
+	return arr
+}
+
+// genTablePath: a path into the table stored under "rows": every record's member (each), or the member of the record
+// selected by a first-match query on its id (JSON only).
+func genTablePath(t *rapid.T, table JNode, yamlDoc bool) []pathComp {
+	member := rapid.SampledFrom([]string{"id", "name", "tags"}).Draw(t, "tablemember")
+	if !yamlDoc && rapid.Bool().Draw(t, "query") {
+		i := rapid.IntRange(0, len(table.Kids)-1).Draw(t, "row")
+		if member == "id" {
+			member = "tags"
+		}
+		if _, ok := table.Kids[i].at([]pathComp{{Key: member}}); !ok {
+			member = "tags"
+		}
+		return []pathComp{{Key: "rows"}, {Idx: i, IsIdx: true, Query: fmt.Sprintf("id==%d", 100+i)}, {Key: member}}
+	}
+	return []pathComp{{Key: "rows"}, {Each: true}, {Key: member}}
 }
 
 func escapeGJSON(key string) string {
@@ -45,9 +119,14 @@ func escapeGJSON(key string) string {
 func gjsonPath(comps []pathComp) string {
 	parts := make([]string, len(comps))
 	for i, c := range comps {
-		if c.IsIdx {
+		switch {
+		case c.Each:
+			parts[i] = "#"
+		case c.Query != "":
+			parts[i] = "#(" + c.Query + ")"
+		case c.IsIdx:
 			parts[i] = strconv.Itoa(c.Idx)
-		} else {
+		default:
 			parts[i] = escapeGJSON(c.Key)
 		}
 	}
@@ -57,9 +136,12 @@ func gjsonPath(comps []pathComp) string {
 func yamlPath(comps []pathComp) string {
 	p := "$"
 	for _, c := range comps {
-		if c.IsIdx {
+		switch {
+		case c.Each:
+			p += "[*]"
+		case c.IsIdx:
 			p += fmt.Sprintf("[%d]", c.Idx)
-		} else {
+		default:
 			p += "." + c.Key
 		}
 	}
@@ -686,6 +768,21 @@ func genMatcherStep(t *rapid.T, kind string, cur JNode, comps []pathComp) matche
 func applyModel(cur JNode, st matcherStep) (JNode, bool) {
 	ok := true
 	for _, comps := range st.allPaths() {
+		if hasEach(comps) {
+			// match.Any on an `each` path: the member is replaced in every element that has it
+			exps := expandEach(cur, comps)
+			if len(exps) == 0 && (st.Spec.ErrMissing == nil || *st.Spec.ErrMissing) {
+				ok = false
+			}
+			repl := JNode{K: "str", S: "<Any value>"}
+			if len(st.Spec.Placeholder) > 0 {
+				repl = jnodeFromRaw(st.Spec.Placeholder)
+			}
+			for _, p := range exps {
+				cur = cur.set(p, repl)
+			}
+			continue
+		}
 		var node JNode
 		exists := comps != nil
 		if exists {
@@ -745,12 +842,42 @@ func genC15(t *rapid.T) c15Case {
 			c.Spaced = BS(c.Tree.Spaced(t))
 		}
 	}
+	hasRows := false
+	for _, k := range c.Tree.Keys {
+		hasRows = hasRows || k == "rows"
+	}
+	if c.Tree.K == "obj" && !hasRows && len(c.Spaced) == 0 && rapid.IntRange(0, 3).Draw(t, "table") == 0 {
+		// a table of records under "rows" and, as the first matcher, a path with gjson `#` / `#(..)` or YAML `[*]` into it
+		table := genTable(t, c.Kind == "yaml" && rapid.Bool().Draw(t, "holes"))
+		c.Tree.Keys = append(append([]string{}, c.Tree.Keys...), "rows")
+		c.Tree.Kids = append(append([]JNode{}, c.Tree.Kids...), table)
+		comps := genTablePath(t, table, c.Kind == "yaml")
+		var st matcherStep
+		if hasEach(comps) {
+			path := gjsonPath(comps)
+			if c.Kind == "yaml" {
+				path = yamlPath(comps)
+			}
+			st = matcherStep{Spec: MatcherSpec{Kind: "any", Paths: []string{path}}, Comps: comps}
+			if rapid.Bool().Draw(t, "tableph") {
+				st.Spec.Placeholder = json.RawMessage(rapid.SampledFrom([]string{`"x"`, `7`, `"«redacted»"`, `[]`}).Draw(t, "tablephv"))
+			}
+		} else {
+			st = genMatcherStep(t, c.Kind, c.Tree, comps)
+			st.More, st.MissingFirst = nil, false
+			st.Spec.Paths = []string{gjsonPath(comps)}
+		}
+		c.Steps = append(c.Steps, st)
+	}
 	cur := c.Tree
+	for _, st := range c.Steps {
+		cur, _ = applyModel(cur, st)
+	}
 	n := rapid.IntRange(1, 4).Draw(t, "nmatchers")
-	for i := 0; i < n; i++ {
+	for i := len(c.Steps); i < n; i++ {
 		var comps []pathComp
 		ok := false
-		if i > 0 && rapid.IntRange(0, 3).Draw(t, "samepath") == 0 {
+		if i > 0 && !hasEach(c.Steps[i-1].Comps) && rapid.IntRange(0, 3).Draw(t, "samepath") == 0 {
 			comps, ok = c.Steps[i-1].Comps, true // same path again / after a parent was replaced
 			if rapid.Bool().Draw(t, "parent") && len(comps) > 1 {
 				comps = comps[:len(comps)-1]
@@ -1048,6 +1175,16 @@ func classifyC15(c c15Case) ([]string, bool) {
 			nt = true
 		}
 		cls = append(cls, "matcher_"+st.Spec.Kind)
+		if hasEach(st.Comps) {
+			cls = append(cls, "path_addressing_every_element")
+			nt = true
+		}
+		for _, pc := range st.Comps {
+			if pc.Query != "" {
+				cls = append(cls, "path_with_first_match_query")
+				nt = true
+			}
+		}
 		if st.Spec.InPlace {
 			cls = append(cls, "custom_callback_mutating_its_argument_in_place")
 			nt = true
@@ -1222,6 +1359,27 @@ func genC16(t *rapid.T) c16Case {
 		c.Form = rapid.SampledFrom([]string{"string", "bytes", "value"}).Draw(t, "form")
 	}
 	var masked [][]pathComp
+	hasRows := false
+	for _, k := range c.D.Keys {
+		hasRows = hasRows || k == "rows"
+	}
+	if c.D.K == "obj" && !hasRows && rapid.IntRange(0, 3).Draw(t, "table") == 0 {
+		// a table of records under "rows", masked through a path with gjson `#` / `#(..)` or YAML `[*]`
+		table := genTable(t, yamlDoc && rapid.Bool().Draw(t, "holes"))
+		c.D.Keys = append(append([]string{}, c.D.Keys...), "rows")
+		c.D.Kids = append(append([]JNode{}, c.D.Kids...), table)
+		comps := genTablePath(t, table, yamlDoc)
+		path := gjsonPath(comps)
+		if yamlDoc {
+			path = yamlPath(comps)
+		}
+		ms := MatcherSpec{Kind: "any", Paths: []string{path}}
+		if !hasEach(comps) && rapid.Bool().Draw(t, "tablecustom") {
+			ms = MatcherSpec{Kind: "custom", Paths: []string{path}, Return: json.RawMessage(`"custom"`)}
+		}
+		masked = append(masked, comps[:1]) // nothing else is masked or varied below "rows"
+		c.Steps = append(c.Steps, matcherStep{Spec: ms, Comps: comps})
+	}
 	for i := rapid.IntRange(1, 3).Draw(t, "nmasked"); i > 0; i-- {
 		comps, ok := genExistingPath(t, c.D, true)
 		if !ok {
@@ -1291,8 +1449,10 @@ func genC16(t *rapid.T) c16Case {
 	c.TwoDocs = yamlDoc && c.D.K == "obj" && rapid.IntRange(0, 3).Draw(t, "twodocs") == 0
 	c.DPrime = c.D
 	for _, st := range c.Steps {
-		node, _ := c.DPrime.at(st.Comps)
-		c.DPrime = c.DPrime.set(st.Comps, otherValueFor(t, st, node, yamlDoc))
+		for _, p := range expandEach(c.D, st.Comps) {
+			node, _ := c.DPrime.at(p)
+			c.DPrime = c.DPrime.set(p, otherValueFor(t, st, node, yamlDoc))
+		}
 	}
 	// one unmasked scalar changed
 	base := c.D
